@@ -1,5 +1,7 @@
 import Clikit.Drv.Util
+import Clikit.Drv.C01
 import Clikit.Model.Tokenizer
+import Clikit.Model.Lines
 namespace Clikit.Drv.C08
 open Lean Clikit.Drv Clikit.Tokenizer
 
@@ -23,7 +25,24 @@ def asStyle (j : Json) : R Style := do
 def asPiece (j : Json) : R Piece := do
   return { sep := ← fChars j "sep", style := ← asStyle (← field j "style"), tok := ← fChars j "tok" }
 
+/-- one line of `c08.line_history`: `{form: "string", pieces, trail, lenient}` (the command string is the rendered
+pieces) or `{form: "argv", argv, lenient}` -/
+def asLReq (cv : Clikit.Parser.Conv) (f : Clikit.Parser.Fmt) (j : Json) : R Clikit.Lines.LReq := do
+  let len ← fBool j "lenient"
+  match (← fStr j "form") with
+  | "string" =>
+    let ps ← (← fArr j "pieces").toList.mapM asPiece
+    let trail ← fChars j "trail"
+    return { cv := cv, fmt := f, lenient := len, line := .str (render ps ++ trail) }
+  | "argv" =>
+    let argv ← (← fArr j "argv").toList.mapM asChars
+    return { cv := cv, fmt := f, lenient := len, line := .argv argv }
+  | s => .error s!"unknown form {s}"
+
 /--
+* `c08.line_history {fmt, ints, floats, lines}` -> per line `{"raw": ..., "parse": ... | null}`: the lines (command
+                           strings or argv lists) issued to ONE parser object (`Lines.lineHistory`: tokenizer model
+                           composed with the parser model, the object's scratch state threaded)
 * `c08.tokenize {s}`    -> `{"ok": {tokens, option_tokens, script_name}}` | `{"err": name}`; plus
                            `unquoted`, `runs` (the maximal non-whitespace runs of `s`)
 * `c08.argv {argv}`     -> the same for `ArgvArgs(argv)`
@@ -51,6 +70,16 @@ def handle (m : String) (j : Json) : Option (R Json) :=
       return Json.mkObj [("string", jCodes s),
                          ("wf", .bool (wfPieces true ps && trail.all Clikit.Gen.C08.isSpace)),
                          ("raw", jExcept jRaw (stringArgs s))]
+  | "c08.line_history" => some do
+      let f ← C01.fmtOf (← field j "fmt")
+      let cv ← C01.convOf j
+      let reqs ← (← fArr j "lines").toList.mapM (asLReq cv f)
+      let outs := Clikit.Lines.lineHistory Clikit.Parser.St.empty reqs
+      return Json.arr (outs.map (fun (o : Clikit.Lines.LOut) =>
+        Json.mkObj [("raw", jExcept jRaw o.1),
+                    ("parse", match o.2 with
+                      | none => Json.null
+                      | some r => C01.jArgs f r)])).toArray
   | "c08.spaces" => some do
       -- the whitespace table of the model on a whole range of code points
       let lo ← fNat j "lo"
